@@ -775,9 +775,10 @@ class Gen:
                 # operations named like prelude / reserved type names (Default, Option, ...): envelope and method names derive from it
                 word = r3.choice(["default", "option", "string", "vec", "rc", "result", "box", "self", ("c", "to", "f"), ("e", "mail"),
                                   ("x", "coordinate"), ("get", "a", "b"), Name(("http", "ping"), "pascal", "HTTPPing"),
-                                  Name(("xml", "export"), "pascal", "XMLExport"), Name(("get", "v2", "data"), "snake")])
+                                  Name(("xml", "export"), "pascal", "XMLExport")])
                 if isinstance(word, Name):
-                    # leading acronyms and digits: snake_case(PascalCase(name)) is not snake_case(name)
+                    # leading acronyms: snake_case(PascalCase(name)) is not snake_case(name) (names with digits are left out: where a
+                    # word ends next to a digit is a matter of taste, get_v2_data / get_v_2_data)
                     cand = word
                 elif isinstance(word, tuple):
                     # single-letter words: case conversion is not idempotent for them (c_to_f -> CToF -> Ctof)
